@@ -1,6 +1,7 @@
 (* pins for C03: statements of the property theorems as of the time of pinning *)
 From Coq Require Import NArith ZArith List Bool.
-From Blue Require Import Lsm.Model Lsm.LoadProofs Lsm.Ordered Lsm.History.
+From Blue Require Import Lsm.Model Lsm.LoadProofs Lsm.Ordered Lsm.History Lsm.ModelConcurrent Lsm.ConcInv
+  Lsm.ConcurrentProofs.
 From Blue Require Import Cursor.Iface Cursor.Ref Cursor.Bounds Cursor.Spec Cursor.Compose Cursor.Proofs_Compose.
 From Blue Require Import Scan.Skip Scan.Model Scan.Proofs_Bridge Scan.Proofs_Count Scan.Proofs_Wf Scan.Proofs_Skip
   Scan.Proofs_Scan Scan.Proofs_Extra.
@@ -9,6 +10,7 @@ Local Open Scope Z_scope.
 From Blue Require Import Scan.Props_C03.
 Check C03_scan_correct : forall s lo hi prog, Inv s -> run_scan s lo hi prog = run_live s lo hi prog.
 Check C03_scan_after_history : forall n ops lo hi prog, all_accepted (init_at n) ops = true -> run_scan (History.run (init_at n) ops) lo hi prog = run_live (History.run (init_at n) ops) lo hi prog.
+Check C03_scan_after_concurrent_history : forall n ops lo hi prog, caccepted (cinit_at n) ops = true -> run_scan (st (crun (cinit_at n) ops)) lo hi prog = run_live (st (crun (cinit_at n) ops)) lo hi prog.
 Check C03_live_spec_characterised : forall s lo hi x, Inv s -> (In x (live_spec s lo hi) <-> in_bounds lo hi x = true /\ load s (ek x) (seq s) = Some (uncv x) /\ ev x <> None).
 Check C03_live_spec_ascending_once : forall s lo hi, kinc (map ek (live_spec s lo hi)) /\ sorted (live_spec s lo hi).
 Check C03_live_spec_is_latest_puts : forall n ops lo hi k v, all_accepted (init_at n) ops = true -> ((exists x, In x (live_spec (History.run (init_at n) ops) lo hi) /\ ek x = k /\ ev x = Some v) <-> key_in lo hi k = true /\ History.spec ops k = Some v).
